@@ -114,6 +114,41 @@ class Injector(object):
         raise InjectedFault('injected at call #%d' % self.k)
 
 
+def optional_keywords(partext):
+    """String keys that template_metadata / template_input look up in the parsed parameter file (`'k' in par`,
+    `par['k']`, `par.get('k')`) and that the standard test file does not define."""
+    import ast
+    import inspect
+    import textwrap
+    import pydl.pydlspec2d.spec1d as S
+    known = set(l.split()[0].lower() for l in partext.splitlines() if l.split() and not l.startswith(('typedef', '}', ' ', '#')))
+    keys = []
+    for fn in ('template_metadata', 'template_input', '_template_input'):
+        f = getattr(S, fn, None)
+        if f is None:
+            continue
+        try:
+            tree = ast.parse(textwrap.dedent(inspect.getsource(f)))
+        except (OSError, SyntaxError):
+            continue
+        for n in ast.walk(tree):
+            k = None
+            if isinstance(n, ast.Compare) and len(n.ops) == 1 and isinstance(n.ops[0], (ast.In, ast.NotIn)) \
+                    and isinstance(n.left, ast.Constant) and isinstance(n.left.value, str) \
+                    and isinstance(n.comparators[0], ast.Name) and n.comparators[0].id == 'par':
+                k = n.left.value
+            elif isinstance(n, ast.Subscript) and isinstance(n.value, ast.Name) and n.value.id == 'par' \
+                    and isinstance(n.slice, ast.Constant) and isinstance(n.slice.value, str):
+                k = n.slice.value
+            elif isinstance(n, ast.Call) and isinstance(n.func, ast.Attribute) and n.func.attr == 'get' \
+                    and isinstance(n.func.value, ast.Name) and n.func.value.id == 'par' and n.args \
+                    and isinstance(n.args[0], ast.Constant) and isinstance(n.args[0].value, str):
+                k = n.args[0].value
+            if k and k.lower() not in known and k not in keys and k.replace('_', '').isalnum():
+                keys.append(k)
+    return keys
+
+
 def make_inputs(workdir):
     """Small, valid inputs so that both entry points run to completion without faults."""
     from astropy.io import fits
@@ -163,6 +198,13 @@ typedef struct {
     if not os.path.exists(par_hmf):
         txt = open(par).read().replace('method pca', 'method hmf').replace('run1d v8_8_8\n', 'run1d v8_8_8\nepsilon -1.0\nnonnegative 0\n')
         open(par_hmf, 'w').write(txt)
+    # keywords the code looks up in the parameter file that the files above do not have (optional keywords):
+    # a third file sets every one of them, so that code guarded by `'key' in par` runs too
+    par_opt = os.path.join(workdir, 'tmpl_opt.par')
+    opt = optional_keywords(open(par).read())
+    if not os.path.exists(par_opt):
+        txt = open(par).read().replace('run1d v8_8_8\n', 'run1d v8_8_8\n' + ''.join('%s %s\n' % (k, workdir) for k in opt))
+        open(par_opt, 'w').write(txt)
     dump = os.path.join(workdir, 'tmpl.dump')
     if not os.path.exists(dump):
         rng = np.random.RandomState(5)
@@ -174,7 +216,7 @@ typedef struct {
         ivar = np.ones((8, npix)) * 100.0
         with open(dump, 'wb') as f:
             pickle.dump({'newflux': flux, 'newivar': ivar, 'newloglam': loglam}, f)
-    return {'resolve': resolve, 'par': par, 'par_hmf': par_hmf, 'dump': dump}
+    return {'resolve': resolve, 'par': par, 'par_hmf': par_hmf, 'par_opt': par_opt, 'optional_keywords': opt, 'dump': dump}
 
 
 def snapshot():
@@ -208,6 +250,8 @@ def one_run(target, paths, watched, run, workdir):
             if hasattr(S, extra):
                 codes.append(getattr(S, extra).__code__)
         parfile = paths['par_hmf'] if run.get('args', {}).get('method') == 'hmf' else paths['par']
+        if run.get('args', {}).get('optional_keywords'):
+            parfile = paths['par_opt']
         call = lambda: S.template_input(parfile, paths['dump'], flux=bool(run.get('args', {}).get('flux', False)), verbose=False)   # noqa: E731
     inj = Injector(codes, run.get('fault'))
     os.environ = tr
